@@ -18,6 +18,18 @@ CLAIMS = {
               "harness and T1 extractor. Theorems range over skeleton families (no control flow inside expressions)."),
         technique="Lean 4 proof by mutual structural induction over an executable model + differential correspondence check",
         ref="DESIGN.md §3 C01"),
+    "C14": dict(
+        text=("Kernel-checked theorems: for every directory tree, recursive or not, from the root or a sub-directory, the "
+              "walk collects exactly the files not below an always-excluded directory and not compiled artefacts "
+              "(pruning = filtering, at every depth); every documented ignore-pattern form (name/, **/name/, *.ext, exact "
+              "path) is matched exactly as gitignore reads it (fnmatch re-stated in Lean, lemmas about * / literals); hence "
+              "linted set = specified set (linted_eq_spec, no side conditions beyond well-formed names). Tables regenerated "
+              "from /repo; model compared with the real CLI on generated trees through a deny-everything file-placement probe. "
+              "Three genuine defects found by the model were repaired in /repo (fix: commits a1ae4e9, bd0e3d3)."),
+        note=("Trusted: Lean kernel; os.walk, fnmatch and pathlib are re-stated in Lean and only sampled against the real "
+              "ones; patterns outside the documented forms ([seq] classes, negation) are not covered; no symlinks."),
+        technique="Lean 4 proof (mutual structural induction over trees, list/glob lemmas) + differential correspondence check",
+        ref="DESIGN.md §3 C14"),
 }
 ALL = [f"C{n:02d}" for n in range(1, 21)]
 NOT_YET = "machinery for this property is not built yet in this revision of /verif (planned, see DESIGN.md §3); not claimed"
